@@ -14,7 +14,7 @@ sys.path.insert(0, os.path.dirname(os.path.dirname(os.path.abspath(__file__))))
 
 from common import VERIF, Ctx, InfraError  # noqa: E402
 
-LEAN_TARGETS = ["QuriVerif.Props.C08", "QuriVerif.Props.C08Lift", "QuriVerif.Driver.C08"]
+LEAN_TARGETS = ["QuriVerif.Props.C08", "QuriVerif.Props.C08Lift", "QuriVerif.Props.C08Partition", "QuriVerif.Driver.C08"]
 ENTRY = "DriverC08.lean"
 PROPS = "QuriVerif.Props.C08"
 
@@ -2028,12 +2028,13 @@ def run(ctx: Ctx, replay=None) -> int:
                 "from the state vector by oracle/c08ideal.py; distinct = distinct canonical inputs; nontrivial = something was allocated / requested")
     ctx.trusted = TRUSTED
     ctx.assumptions = ASSUMPTIONS
-    LIFT = "QuriVerif.Props.C08Lift"
-    ok = ctx.prove([PROPS, LIFT, "QuriVerif.Driver.C08"], [PROPS, LIFT])
+    LIFT, PART = "QuriVerif.Props.C08Lift", "QuriVerif.Props.C08Partition"
+    ok = ctx.prove([PROPS, LIFT, PART, "QuriVerif.Driver.C08"], [PROPS, LIFT, PART])
     if ok:
         names = [f"QV.Props.C08.{n}" for _, n, _ in ctx.count_obligations([PROPS])]
         names += [f"QV.Props.C08Lift.{n}" for _, n, _ in ctx.count_obligations([LIFT])]
-        ctx.audit(names, [PROPS, LIFT])
+        names += [f"QV.Props.C08Partition.{n}" for _, n, _ in ctx.count_obligations([PART])]
+        ctx.audit(names, [PROPS, LIFT, PART])
     else:
         ok_driver, _ = ctx.lake_build(["QuriVerif.Driver.C08"])
         if not ok_driver:
